@@ -84,8 +84,15 @@ def run(tier, seed, selftest=False, replay=None):
                             "[%s] instantiate %s choices=%s sw=%s -> offending args %s%s" % (
                                 c["lang"], ev["argdesc"], json.dumps(ev["choices"]), json.dumps(ev["sw"]),
                                 [[show(a) for a in o[1]] for o in j.get("off", []) if o[0] == clause][:3], " exc=%s" % ev["exc"] if ev["exc"] else ""))
+    ev = (0, 0, 0, None)
+    if not replay:
+        import ev_common
+        ev = ev_common.run_ev(PID, ["instantiate"], tier, seed, verdict,
+                              describe=lambda e: "instantiate %s tps=%s pre=%s -> %s" % (e["argdesc"], [p["n"] for p in e["tps"]], {k: show(v) for k, v in e["pre"].items()},
+                                                                                     [show(a) for a in e["outs"][0]["args"]]))
     rc = verdict.finish()
     write_evidence(PID, tier, seed, "model_checking", {
+        "ev_generator_calls": {"programs": ev[0], "distinct_calls_judged": ev[1], "not_judgeable": ev[2]},
         "states": gstates[0] + sum(v.distinct for v in vals), "transitions": gstates[1] + sum(v.generated for v in vals),
         "traces_validated_against_impl": n_events,
         "samples": [{"declaration": [(p["v"] + " " if p["v"] != "inv" else "") + p["n"] + (" : " + show(p["b"][0]) if p["b"] else "") for p in sample["tps"]],
